@@ -892,7 +892,8 @@ def get_next_imf_mask(X, z, amp, nphases=4, nprocesses=1,
 
     # Work with a partial function to make the parallel loop cleaner
     # This partial function contains all the settings which will be constant across jobs.
-    my_get_next_imf = functools.partial(get_next_imf, **imf_opts)
+    my_get_next_imf = functools.partial(get_next_imf, envelope_opts=envelope_opts,
+                                        extrema_opts=extrema_opts, **imf_opts)
 
     args = [[X+m[:, ii, np.newaxis]] for ii in range(nphases)]
 
@@ -909,7 +910,7 @@ def get_next_imf_mask(X, z, amp, nphases=4, nprocesses=1,
     return imfs.mean(axis=1)[:, np.newaxis], np.any(continue_flags)
 
 
-def get_mask_freqs(X, first_mask_mode='zc', imf_opts=None):
+def get_mask_freqs(X, first_mask_mode='zc', imf_opts=None, envelope_opts=None, extrema_opts=None):
     """Determine mask frequencies for a sift.
 
     Parameters
@@ -921,6 +922,10 @@ def get_mask_freqs(X, first_mask_mode='zc', imf_opts=None):
         and initial frequency. See notes for more details.
     imf_opts : dict
         Options to be passed to get_next_imf if first_mask_mode is 'zc' or 'if'.
+    envelope_opts : dict
+        Optional dictionary of keyword options to be passed to emd.interp_envelope
+    extrema_opts : dict
+        Optional dictionary of keyword options to be passed to emd.get_padded_extrema
 
     Returns
     -------
@@ -935,7 +940,7 @@ def get_mask_freqs(X, first_mask_mode='zc', imf_opts=None):
         logger.info('Computing first mask frequency with method {0}'.format(first_mask_mode))
         logger.info('Getting first IMF with no mask')
         # First IMF is computed normally
-        imf, _ = get_next_imf(X, **imf_opts)
+        imf, _ = get_next_imf(X, envelope_opts=envelope_opts, extrema_opts=extrema_opts, **imf_opts)
 
     # Compute first mask frequency from first IMF
     if first_mask_mode == 'zc':
@@ -1078,7 +1083,8 @@ def mask_sift(X, mask_amp=1, mask_amp_mode='ratio_imf', mask_freqs='zc',
             max_imfs = len(mask_freqs)
             logger.info("Reducing max_imfs to {0} as len(mask_freqs) < max_imfs".format(max_imfs))
     elif mask_freqs in ['zc', 'if'] or isinstance(mask_freqs, float):
-        z = get_mask_freqs(X, mask_freqs, imf_opts=imf_opts)
+        z = get_mask_freqs(X, mask_freqs, imf_opts=imf_opts,
+                           envelope_opts=envelope_opts, extrema_opts=extrema_opts)
         mask_freqs = np.array([z/mask_step_factor**ii for ii in range(max_imfs)])
 
     _nsamples_warn(X.shape[0], max_imfs)
